@@ -27,6 +27,7 @@ def hasSideEffects : E → Bool
     else hasSideEffects x
   | bin op x y =>
     if op.prec == opAssign then true
+    else if op == .inOp || op == .instOf then true   -- may throw a TypeError
     else (!x.isVar && hasSideEffects x) || (!y.isVar && hasSideEffects y)
 
 /-- `groupExpr(i, prec)` -/
